@@ -10,6 +10,7 @@ import (
 	"time"
 
 	beacon "github.com/oasisprotocol/oasis-core/go/beacon/api"
+	"github.com/oasisprotocol/oasis-core/go/common"
 	"github.com/oasisprotocol/oasis-core/go/common/cbor"
 	"github.com/oasisprotocol/oasis-core/go/common/crypto/signature"
 	memorySigner "github.com/oasisprotocol/oasis-core/go/common/crypto/signature/signers/memory"
@@ -100,6 +101,13 @@ type GenesisOptions struct {
 	ZeroThresholds     bool     // all stake thresholds zero (tiny stakes can be elected)
 	MinGasPrice        uint64   // consensus parameter
 	TxByteGas          uint64   // gas cost per transaction byte
+	Runtime            bool     // register a compute runtime owned by entity 0; all genesis nodes are also compute workers for it
+	RtGroupSize        uint16   // executor committee size (default 2)
+	RtBackupSize       uint16   // backup workers (default 0)
+	RtMaxInMessages    uint32   // incoming message queue capacity (default 1)
+	RtMaxNodesPerEnt   uint16   // MaxNodes scheduling constraint per entity (0 = none)
+	RtMinPool          uint16   // MinPoolSize scheduling constraint (default = group size)
+	DebondingInterval  uint64   // staking debonding interval in epochs (default 1)
 
 }
 
@@ -125,6 +133,67 @@ func (k *Keys) NodeDescriptor(i, ent int, expiration beacon.EpochTime, roles nod
 	}
 }
 
+// RuntimeID is the identifier of the universe's compute runtime.
+func RuntimeID() common.Namespace {
+	return common.NewTestNamespaceFromSeed([]byte("verif runtime 0"), common.NamespaceTest)
+}
+
+// RuntimeDescriptor builds the compute runtime descriptor (entity governed, owned by entity ent).
+func (k *Keys) RuntimeDescriptor(ent int, o GenesisOptions) *registry.Runtime {
+	gs, mi, mp := o.RtGroupSize, o.RtMaxInMessages, o.RtMinPool
+	if gs == 0 {
+		gs = 2
+	}
+	if mi == 0 {
+		mi = 1
+	}
+	if mp == 0 {
+		mp = gs
+	}
+	wc := registry.SchedulingConstraints{MinPoolSize: &registry.MinPoolSizeConstraint{Limit: mp}}
+	if o.RtMaxNodesPerEnt > 0 {
+		wc.MaxNodes = &registry.MaxNodesConstraint{Limit: o.RtMaxNodesPerEnt}
+	}
+	cons := map[scheduler.Role]registry.SchedulingConstraints{scheduler.RoleWorker: wc}
+	if o.RtBackupSize > 0 {
+		cons[scheduler.RoleBackupWorker] = registry.SchedulingConstraints{MinPoolSize: &registry.MinPoolSizeConstraint{Limit: o.RtBackupSize}}
+	}
+	rt := &registry.Runtime{
+		Versioned: cbor.NewVersioned(registry.LatestRuntimeDescriptorVersion),
+		ID:        RuntimeID(),
+		EntityID:  k.Entities[ent].Public(),
+		Kind:      registry.KindCompute,
+		Executor: registry.ExecutorParameters{
+			GroupSize:         gs,
+			GroupBackupSize:   o.RtBackupSize,
+			AllowedStragglers: 0,
+			RoundTimeout:      5,
+			MaxMessages:       8,
+			MinLiveRoundsForEvaluation: 2,
+			MinLiveRoundsPercent:       50,
+			MaxLivenessFailures:        1,
+		},
+		TxnScheduler: registry.TxnSchedulerParameters{
+			BatchFlushTimeout: time.Second,
+			MaxBatchSize:      10,
+			MaxBatchSizeBytes: 10240,
+			MaxInMessages:     mi,
+			ProposerTimeout:   2 * time.Second,
+		},
+		AdmissionPolicy: registry.RuntimeAdmissionPolicy{AnyNode: &registry.AnyNodeRuntimeAdmissionPolicy{}},
+		Constraints: map[scheduler.CommitteeKind]map[scheduler.Role]registry.SchedulingConstraints{
+			scheduler.KindComputeExecutor: cons,
+		},
+		GovernanceModel: registry.GovernanceEntity,
+		Staking: registry.RuntimeStakingParameters{
+			MinInMessageFee: q(1),
+		},
+		Deployments: []*registry.VersionInfo{{}},
+	}
+	rt.Genesis.StateRoot.Empty()
+	return rt
+}
+
 // NodeSigners returns the signers that must sign node i's descriptor.
 func (k *Keys) NodeSigners(i int) []signature.Signer {
 	id := k.Nodes[i]
@@ -138,6 +207,11 @@ func (k *Keys) EntityDescriptor(e int, nodes []int) *entity.Entity {
 		ent.Nodes = append(ent.Nodes, k.Nodes[n].NodeSigner.Public())
 	}
 	return ent
+}
+
+func withRuntimes(n *node.Node, rts []*node.Runtime) *node.Node {
+	n.Runtimes = rts
+	return n
 }
 
 var GenesisTime = time.Unix(1700000000, 0).UTC()
@@ -236,7 +310,7 @@ func Genesis(k *Keys, o GenesisOptions) (*genesis.Document, error) {
 	// Staking.
 	st := staking.Genesis{
 		Parameters: staking.ConsensusParameters{
-			DebondingInterval: 1,
+			DebondingInterval: beacon.EpochTime(maxU(o.DebondingInterval, []uint64{1})),
 			Thresholds: map[staking.ThresholdKind]quantity.Quantity{
 				staking.KindEntity:            q(100),
 				staking.KindNodeValidator:     q(200),
@@ -333,6 +407,14 @@ func Genesis(k *Keys, o GenesisOptions) (*genesis.Document, error) {
 	}
 	doc.Staking = st
 
+	// Registry: the compute runtime (before the nodes that serve it).
+	roles := node.RoleValidator
+	var nodeRts []*node.Runtime
+	if o.Runtime {
+		doc.Registry.Runtimes = append(doc.Registry.Runtimes, k.RuntimeDescriptor(0, o))
+		roles |= node.RoleComputeWorker
+		nodeRts = []*node.Runtime{{ID: RuntimeID()}}
+	}
 	// Registry: entities and their validator nodes.
 	for e := range k.Entities {
 		owned := []int{e}
@@ -348,13 +430,13 @@ func Genesis(k *Keys, o GenesisOptions) (*genesis.Document, error) {
 		if e < len(o.NodeExpirations) && o.NodeExpirations[e] > 0 {
 			exp = o.NodeExpirations[e]
 		}
-		sn, err := node.MultiSignNode(k.NodeSigners(e), registry.RegisterGenesisNodeSignatureContext, k.NodeDescriptor(e, e, beacon.EpochTime(exp), node.RoleValidator))
+		sn, err := node.MultiSignNode(k.NodeSigners(e), registry.RegisterGenesisNodeSignatureContext, withRuntimes(k.NodeDescriptor(e, e, beacon.EpochTime(exp), roles), nodeRts))
 		if err != nil {
 			return nil, err
 		}
 		doc.Registry.Nodes = append(doc.Registry.Nodes, sn)
 		if o.ExtraNodes && e == 1 && len(k.Nodes) > 3 {
-			sn3, err := node.MultiSignNode(k.NodeSigners(3), registry.RegisterGenesisNodeSignatureContext, k.NodeDescriptor(3, 1, beacon.EpochTime(o.NodeExpiration), node.RoleValidator))
+			sn3, err := node.MultiSignNode(k.NodeSigners(3), registry.RegisterGenesisNodeSignatureContext, withRuntimes(k.NodeDescriptor(3, 1, beacon.EpochTime(o.NodeExpiration), roles), nodeRts))
 			if err != nil {
 				return nil, err
 			}
